@@ -248,6 +248,15 @@ pub fn max_derives(d: &Decl, prefer_from: bool) -> Vec<Tr> {
                     t.push(Arbitrary);
                 }
             }
+            Inner::FBox => {
+                t.push(Copy);
+                t.retain(|x| !matches!(x, Serialize | Deserialize));
+            }
+            Inner::GenT => {
+                // TryFrom / From / Into on a bare type parameter collide with std's blanket impls (coherence)
+                t.extend([Copy, Eq, Ord, Hash, FromStr, Display]);
+                t.retain(|x| !matches!(x, TryFrom | From | Into));
+            }
             Inner::Cow => {
                 t.extend([Eq, Ord, Hash, Display]);
                 t.retain(|x| !matches!(x, Borrow | Deserialize | TryFrom | From | Default));
@@ -613,7 +622,9 @@ pub fn float_subjects(tier: Tier, out: &mut Vec<Subj>) {
 
 pub fn arbitrary_float_subjects(tier: Tier, out: &mut Vec<Subj>) {
     // finite x lower kind x upper kind x magnitude
-    let mags32: Vec<(f32, f32)> = vec![(0.0, 1.0), (-1.0, 1.0), (0.1, 0.2), (63.0, 64.0), (64.0, 100.0), (100.0, 1e10), (-1e10, -100.0), (1e38, 3e38), (-3e38, 3e38), (1.0, 1.0000001), (16777216.0, 16777220.0)];
+    // the last three pairs put a bound on a zero of either sign (ulp stepping across zero)
+    let mags32: Vec<(f32, f32)> = vec![(0.0, 1.0), (-1.0, 1.0), (0.1, 0.2), (63.0, 64.0), (64.0, 100.0), (100.0, 1e10), (-1e10, -100.0), (1e38, 3e38), (-3e38, 3e38), (1.0, 1.0000001), (16777216.0, 16777220.0), (-1.0, 0.0), (-0.0, 1.0), (-1.0, -0.0)];
+    let zero_bound = |mi: usize| mi >= 11;
     let kinds: [(Option<VK>, Option<VK>); 8] = [(Some(VK::G), Some(VK::L)), (Some(VK::GE), Some(VK::L)), (Some(VK::G), Some(VK::LE)), (Some(VK::GE), Some(VK::LE)), (Some(VK::G), None), (Some(VK::GE), None), (None, Some(VK::L)), (None, Some(VK::LE))];
     let mut n = 0usize;
     for is32 in [true, false] {
@@ -621,7 +632,7 @@ pub fn arbitrary_float_subjects(tier: Tier, out: &mut Vec<Subj>) {
             for (ki, (lk, uk)) in kinds.iter().enumerate() {
                 for fin in [false, true] {
                     let take = match tier {
-                        Tier::Quick => (mi + ki + fin as usize + is32 as usize) % 9 == 0,
+                        Tier::Quick => (mi + ki + fin as usize + is32 as usize) % 9 == 0 || (zero_bound(mi) && !fin && (ki + is32 as usize) % 2 == 0),
                         Tier::Thorough => true,
                     };
                     if !take {
@@ -738,6 +749,19 @@ pub fn string_subjects(tier: Tier, out: &mut Vec<Subj>) {
         d.derives = max_derives(&d, i % 2 == 0);
         out.push(Subj { decl: d, tag: format!("string/{}san/novalidation", sl.len()), serde_full: i == 0 });
     }
+    // a custom sanitizer for which the empty string is not a fixed point
+    for (i, sl) in [vec![San::With(UFn::OrAnon, Spell::Path)], vec![San::Trim, San::With(UFn::OrAnon, Spell::Closure)], vec![San::With(UFn::OrAnon, Spell::ClosureTyped), San::Upper]].iter().enumerate() {
+        for with_validation in [false, true] {
+            let mut d = Decl::new("X", Inner::Str);
+            d.sans = sl.clone();
+            if with_validation {
+                d.validation = Validation::Std(vec![Vd::LenCharMax(Bound::lit(Val::U(4)))]);
+            }
+            d.default = if i % 2 == 0 { Some(Val::s("")) } else { None };
+            d.derives = max_derives(&d, true);
+            out.push(Subj { decl: d, tag: "string/or_anon".into(), serde_full: false });
+        }
+    }
     // custom validation
     for (i, sl) in [vec![], vec![San::Trim], vec![San::With(UFn::StripX, Spell::Closure)], vec![San::With(UFn::Dup, Spell::Path), San::Trim], vec![San::With(UFn::Truncate3, Spell::ClosureTyped)]].iter().enumerate() {
         let mut d = Decl::new("X", Inner::Str);
@@ -823,6 +847,25 @@ pub fn any_subjects(_tier: Tier, out: &mut Vec<Subj>) {
         d.default = if n % 2 == 0 { Some(Val::P(3, 3)) } else { None };
         d.derives = max_derives(&d, n % 3 == 0);
         out.push(Subj { decl: d, tag: "any/Point".into(), serde_full: n % 4 == 0 });
+        n += 1;
+    }
+    // a bare type parameter as inner type (generic FromStr / Display / serde / ParseError<T> code paths)
+    for k in 0..2 {
+        let mut d = Decl::new("X", Inner::GenT);
+        d.derives = max_derives(&d, true);
+        if k == 1 {
+            d.derives.retain(|t| !matches!(t, Tr::Serialize | Tr::Deserialize | Tr::Hash | Tr::Ord | Tr::Eq));
+        }
+        out.push(Subj { decl: d, tag: "any/GenT".into(), serde_full: k == 0 });
+        n += 1;
+    }
+    // a user type with non-reflexive equality
+    for (sans, val) in [(vec![], Validation::None), (vec![San::With(UFn::FBoxAbs, Spell::Path)], Validation::Std(vec![Vd::Predicate(UFn::FBoxSmall, Spell::Path)])), (vec![], Validation::Std(vec![Vd::Predicate(UFn::FBoxSmall, Spell::Closure)]))] {
+        let mut d = Decl::new("X", Inner::FBox);
+        d.sans = sans;
+        d.validation = val;
+        d.derives = max_derives(&d, n % 2 == 0);
+        out.push(Subj { decl: d, tag: "any/FBox".into(), serde_full: false });
         n += 1;
     }
     for (sans, val) in [(vec![], Validation::Std(vec![Vd::Predicate(UFn::NoX, Spell::Closure)])), (vec![], Validation::None)] {
